@@ -531,12 +531,12 @@ func c10JudgeTx(cfg *c10Cfg, body []byte, sizes []int, e *c10Exp, o *c10Obs) (cl
 // ---------------------------------------------------------------- direct BodyBuffer round trips
 
 type c10BufObs struct {
-	Writes   []c10Call
-	Size     int64
-	Contents [][]byte // what each reader returned
-	ReadErr  string
-	Spills   int
-	Panic    string
+	Writes     []c10Call
+	Size       int64
+	Contents   [][]byte // what each reader returned
+	ReadErr    string
+	Spills     int
+	Panic      string
 	AfterReset struct {
 		ResetErr bool
 		Size     int64
